@@ -411,7 +411,7 @@ func runAlias(c *vl.Ctx, quick bool, compile func(string) fe.Result, getRunner f
 	var mu sync.Mutex
 	judged, changed, unavailable := 0, 0, 0
 	opsJudged := map[string]int{}
-	runPack := func(l []*aliasItem) (res []string, detail string, ok bool) {
+	runPackOn := func(rn *run.Runner, l []*aliasItem) (res []string, detail string, ok bool) {
 		src := aliasProgram(l)
 		dir := rn.NewDir()
 		defer os.RemoveAll(dir)
@@ -435,7 +435,7 @@ func runAlias(c *vl.Ctx, quick bool, compile func(string) fe.Result, getRunner f
 			c.Count("alias_skipped_tier_budget", int64(len(l)))
 			return
 		}
-		res, _, ok := runPack(l)
+		res, _, ok := runPackOn(rn, l)
 		for i, it := range l {
 			if ok && res[i] == "" {
 				mu.Lock()
@@ -447,7 +447,8 @@ func runAlias(c *vl.Ctx, quick bool, compile func(string) fe.Result, getRunner f
 				continue
 			}
 			// on its own
-			r1, d1, ok1 := runPack([]*aliasItem{it})
+			// on its own, by the ferret binary
+			r1, d1, ok1 := runPackOn(rn.Real(), []*aliasItem{it})
 			mu.Lock()
 			if !ok1 {
 				unavailable++
